@@ -34,11 +34,11 @@ def check_array_encoder(ctx, ty, spec, rules=("R-1", "R-2", "R-6")):
     arities, slots = spec[0], spec[1]
     f = prog.fn(enc_key(ty))
     pv = Prov(f)
-    rc = codec.returned_collection(f, pv, "Array")
+    rc = codec.returned_operand(f, pv, "Array")
     if rc is None:
         ctx.cannot(R1, "shape:%s" % ty, "%s does not return Ok(Value::Array(<vec built here>))" % f.key, where=f.span)
         return None
-    els = codec.vec_elements(f, pv, *rc)
+    els = codec.array_elements(f, pv, *rc)
     if els is None:
         ctx.cannot(R1, "shape:%s" % ty, "cannot follow how %s builds its array" % f.key, where=f.span)
         return None
@@ -62,7 +62,7 @@ def check_array_encoder(ctx, ty, spec, rules=("R-1", "R-2", "R-6")):
                 want = ["nonempty:%s" % field] if kind.startswith("array<") else ["some:%s" % field]
             else:
                 want = ["always"]
-            ctx.ob(R2, "guard:%s.%d" % (ty, idx), got["guard"] == want,
+            ctx.ob(R2, "guard:%s.%d" % (ty, idx), got["guard"] == codec.canon_guard(want),
                    "%s slot %d (`%s`) is emitted %s (found guard %s)" % (ty, idx, field, "iff " + want[0] if optional else "always", got["guard"]),
                    where=f.span)
     allf = prog.struct_fields(ty) or []
@@ -105,7 +105,7 @@ def check_map_encoder(ctx, ty, emit, extras_field, rules=("R-1", "R-2", "R-5", "
                "%s entry #%d is label %d -> `%s` as %s (found %s)" % (ty, i, label, field, kind, g), where=f.span,
                sample={"type": ty, "label": label, "field": field, "kind": kind})
         if got:
-            ctx.ob(R2, "guard:%s.%d.%s" % (ty, label, kind.split("<")[0]), got.get("guard") == guard,
+            ctx.ob(R2, "guard:%s.%d.%s" % (ty, label, kind.split("<")[0]), got.get("guard") == codec.canon_guard(guard),
                    "%s label %d is emitted under guard %s (found %s)" % (ty, label, guard, got.get("guard")), where=f.span)
     if loops and typed:
         order = {b: i for i, b in enumerate(f.cfg.rpo)}
